@@ -41,35 +41,55 @@ def roles(ctx):
     if r.recorder is None:
         raise AnalysisError('file-rule recorder not found')
     lr = r.load_rules
-    for call, g in prog.callees(lr):
-        if not isinstance(call, ast.Call):
-            continue
-        # walker: receives the loader as an argument
-        if any(isinstance(a, ast.Attribute) and U(a) == 'self.' +
-               r.loader.name for a in call.args) and g is not r.loader:
-            cal = prog.callee_of(lr, call)
-            if cal is not None:
-                r.walker = cal
-        if any(U(a) == 'self._policy_dir_mtimes' or U(a).endswith(
-                '_dir_mtimes') for a in call.args):
-            cal = prog.callee_of(lr, call)
-            if cal is not None:
-                r.dir_updated = cal
-    # deprecated handler: callee whose result is stored under default.name
-    for n in walk_no_nested(lr.node):
-        if isinstance(n, ast.Assign) and isinstance(n.value, ast.Call):
-            g = prog.callee_of(lr, n.value)
-            if g is not None and g.cls is enf and len(n.value.args) == 1 \
-                    and g.name not in (r.loader.name,) and any(
-                        isinstance(x, ast.Attribute)
-                        and x.attr == 'deprecated_rule'
-                        for x in ast.walk(g.node)):
-                r.deprecated = g
-    for call, g in prog.callees(lr):
-        if isinstance(call, ast.Call) and g.cls is enf and any(
-                isinstance(x, ast.Call) and method_call(x, 'find_file')
-                for x in ast.walk(g.node)):
-            r.get_path = g
+    # helpers of load_rules inside the class (wrappers, extracted loops)
+    # are searched too: everything reachable from load_rules except the
+    # loader / recorder themselves
+    bodies = [f for q, f in prog.region(
+        lr, stop=(r.loader.qual, r.recorder.qual,
+                  ENF + '.check_rules', ENF + '.set_rules')).items()
+        if f.cls is enf]
+    if lr not in bodies:
+        bodies.insert(0, lr)
+    r.bodies = bodies
+    r.load_body = lr
+    for b in bodies:
+        for n in walk_no_nested(b.node):
+            if isinstance(n, ast.For) and 'policy_dirs' in U(n.iter):
+                r.load_body = b
+    for b in bodies:
+        for call, g in prog.callees(b):
+            if not isinstance(call, ast.Call):
+                continue
+            # walker: receives the loader as an argument
+            if any(isinstance(a, ast.Attribute) and U(a) == 'self.' +
+                   r.loader.name for a in call.args) and g is not r.loader:
+                cal = prog.callee_of(b, call)
+                if cal is not None:
+                    r.walker = cal
+            if any(U(a) == 'self._policy_dir_mtimes' or U(a).endswith(
+                    '_dir_mtimes') for a in call.args):
+                cal = prog.callee_of(b, call)
+                if cal is not None:
+                    r.dir_updated = cal
+        # deprecated handler: callee whose result is stored under a name
+        for n in walk_no_nested(b.node):
+            if isinstance(n, ast.Assign) and isinstance(n.value, ast.Call):
+                g = prog.callee_of(b, n.value)
+                if g is not None and g.cls is enf and \
+                        len(n.value.args) == 1 \
+                        and g.name not in (r.loader.name,) and any(
+                            isinstance(x, ast.Attribute)
+                            and x.attr == 'deprecated_rule'
+                            for x in ast.walk(g.node)):
+                    r.deprecated = g
+        for call, g in prog.callees(b):
+            if isinstance(call, ast.Call) and g.cls is enf and any(
+                    isinstance(x, ast.Call) and method_call(x, 'find_file')
+                    for x in ast.walk(g.node)) and g is not lr and not any(
+                        isinstance(x, ast.For) for x in ast.walk(g.node)):
+                r.get_path = g
+    if r.get_path is None:
+        raise AnalysisError('policy path lookup helper not found')
     if r.walker is None:
         raise AnalysisError('policy-directory walker not found')
     if r.dir_updated is None:
@@ -99,7 +119,41 @@ def load_table(ctx):
         return cache['load_table']
     prog = ctx.prog
     r = roles(ctx)
-    t = Table(prog, r.load_rules, writes=writes_cb(prog), max_paths=400000)
+    role_fns = {x.qual for x in (r.loader, r.recorder, r.walker,
+                                 r.dir_updated, r.deprecated, r.get_path)
+                if x is not None} | {ENF + '.check_rules',
+                                     ENF + '.set_rules'}
+    def direct_relevant(b):
+        for call, g in prog.callees(b):
+            if isinstance(call, ast.Call) and g.qual in role_fns:
+                return True
+        for e in effects_of(b):
+            if e.path.startswith(('self.rules', 'self.file_rules')):
+                return True
+        return False
+    helper_quals = set()
+    cand = [b for b in r.bodies if b is not r.load_rules
+            and b.qual not in role_fns]
+    changed = True
+    while changed:
+        changed = False
+        for b in cand:
+            if b.qual in helper_quals:
+                continue
+            if direct_relevant(b) or any(
+                    isinstance(c, ast.Call) and g.qual in helper_quals
+                    for c, g in prog.callees(b)):
+                helper_quals.add(b.qual)
+                changed = True
+    r.helper_quals = helper_quals
+
+    def inline(call, frame):
+        g = prog.callee_of(frame, call)
+        if g is None or g.qual not in helper_quals:
+            return None
+        return g
+    t = Table(prog, r.load_rules, inline=inline if helper_quals else None,
+              writes=writes_cb(prog), max_paths=400000)
     t.roles = r
     cache['load_table'] = t
     return t
@@ -111,7 +165,8 @@ def classify_event(t, e):
     r = t.roles
     lr = r.load_rules
     if e.kind == 'call':
-        g = prog.callee_of(lr, e.node)
+        fr = prog.functions.get(e.frame, lr)
+        g = prog.callee_of(fr, e.node)
         if g is r.loader:
             return 'MAIN'
         if g is r.walker:
